@@ -31,6 +31,7 @@ ROOT_CAUSES = {
  "RC-TRUNC": "name-and-address style parsers accept more lines than documented (party line counted or not) or keep/drop the surplus",
  "RC-EMPTY": "empty content is accepted by parsers whose format has a mandatory component",
  "RC-FIELDMISC": "field-specific deviation from the documented format (see signature)",
+ "RC-B5STRUCT": "Trailer::parse reads only CHK, TNG, DLM and MAC ('more complex parsing for structured tags can be added here'): the structured tags PDE and MRF, which the Trailer struct models and its Display writes, are dropped from any parsed message (as are PDM and SYS, which Display does not write either)",
  "RC-POS16": "parse_block4_fields stamps each value with (line << 16) | (field index & 0xFFFF): beyond 65 535 fields the stamps repeat, so position order (the only order information of the map) is lost",
  "RC-50RENUM": "field 50A/59F numbered lines: the line numbers written are not checked / are renumbered on output",
 }
@@ -46,21 +47,22 @@ RULES = [
  (r"^C04\|MT(104|107|204)\|(C01|D21|D80)\|", "RC-TOL", None),
  (r"^C04\|MT107\|C02\|missing$", "RC-107C02", None),
  (r"^C04\|MT935\|T14\|spurious$", "RC-T14", None),
- (r"^C09\|MT\d+\|deleted:[0-9A-Z]+\|(no-tag|no-type|wrong-tag:.*)$", "RC-SEQERR", None),
+ (r"^C09\|MT\d+\|deleted:[0-9A-Z]+@(later|first)-(opener|inner)\|(no-tag|no-type|wrong-tag:.*)$", "RC-SEQERR", None),
  (r"^C09\|MT210\|deleted:32B\|accepted$", "RC-EMPTYSEQ", None),
  (r"^C08\|msg\|MT(210|942)\|empty-placeholder\|$", "RC-EMPTYSEQ", None),
  (r"^C11\|Field11[RS]?\|invalid-accepted\|not-six-digits$", "RC-11TRAIL", None),
  (r"^C17\|MT20[25]\|method\|.*\|119:", "RC-119", None),
  (r"^C17\|MT\d+\|method\|implied-reject-got-normal\|control$", "RC-MUR", None),
  (r"^C17\|consistency\|", "RC-RJT", None),
- (r"^C16\|tokenise\|position-stamps-collide$", "RC-POS16", None),
+ (r"^C10\|(direct\|)?block5\|(PDE|MRF)\|dropped$", "RC-B5STRUCT", None),
+ (r"^C16\|tokenise\|position-stamps-collide\|over-65536-fields$", "RC-POS16", None),
  (r"^C05\|Field\w+\|over-accept\|blank-line$", "RC-LINES", "C05|*|over-accept|blank-line"),
  (r"^C05\|Field\w+\|over-accept\|(stray-cr|control-char|nonascii)$", "RC-XCHARS", r"C05|*|over-accept|\1"),
  (r"^C05\|Field5[2-57]B\|", "RC-OPTB", None),
  (r"^C05\|Field25(NoOption|A|P)\|", "RC-25SLASH", None),
  (r"^C05\|Field11[RS]?\|over-accept\|", "RC-11TRAIL", None),
  (r"^C05\|Field(50A|59F)\|(unfaithful|over-accept)\|", "RC-50RENUM", None),
- (r"^C05\|Field\w+\|over-accept\|at-Lines-too-many$", "RC-TRUNC", None),
+ (r"^C05\|Field\w+\|over-accept\|at-(Num)?Lines-too-many(:[a-z-]+)?$", "RC-TRUNC", None),
  (r"^C05\|Field\w+\|over-accept\|empty$", "RC-EMPTY", None),
  (r"^C05\|Field\w+\|over-accept\|at-", "RC-TRAIL", None),
  (r"^C05\|Field\w+\|(under-accept|unfaithful|component-mismatch)\|", "RC-FIELDMISC", None),
